@@ -25,9 +25,9 @@
                    the lock is released in the same step.
      CIOSend       the rest of send_continue: `with self.outbuf_lock:
                    outbufs[-1].append(b"HTTP/1.1 100 Continue\r\n\r\n"); counters;
-                   self.sent_continue = True; self._flush_some()` and, after the
-                   block, `self.request.completed = False`; then the rest of the
-                   turn [io_complete] as above.
+                   self.sent_continue = True; self._flush_some()`; then the rest of
+                   the turn [io_complete] as above (a request that was complete at
+                   the end of its header block is queued now).
    Workers (pool threads), HTTPChannel.service():
      CTake         the dispatcher hands the channel to a worker (one pending
                    add_task is consumed; the worker enters service())
@@ -103,11 +103,81 @@
    * close_when_flushed is never reset in this model (handle_write resets it
      when it turns it into will_close and closes: the channel is gone then).
 
+   THE CODE THIS MODEL WAS WRITTEN AGAINST (normalised by ast.unparse; the shape
+   audit of harness/chanexpect.py recomputes it from the source on every run and
+   compares it line by line with this block -- any edit of these methods breaks the
+   tie until the model is re-examined):
+   SIGNATURE-BEGIN
+   def received(self, data):
+       if not data:
+           return False
+       with self.requests_lock:
+           if self.will_close or self.close_when_flushed:
+               return False
+           while data:
+               if self.request is None:
+                   self.request = self.parser_class(self.adj)
+               n = self.request.received(data)
+               if self.request.expect_continue and self.request.headers_finished and (not self.requests) and (not self.sent_continue):
+                   self.send_continue()
+               if self.request.completed:
+                   self.sent_continue = False
+                   if not self.request.empty:
+                       self.requests.append(self.request)
+                       if len(self.requests) == 1:
+                           self.server.add_task(self)
+                   self.request = None
+               if n >= len(data):
+                   break
+               data = data[n:]
+       return True
+   def send_continue(self):
+       self.request.expect_continue = False
+       outbuf_payload = b'HTTP/1.1 100 Continue\r\n\r\n'
+       num_bytes = len(outbuf_payload)
+       with self.outbuf_lock:
+           self.outbufs[-1].append(outbuf_payload)
+           self.current_outbuf_count += num_bytes
+           self.total_outbufs_len += num_bytes
+           self.sent_continue = True
+           self._flush_some()
+   def service(self):
+       request = self.requests[0]
+       ...
+       if task.close_on_finish:
+           with self.requests_lock:
+               self.close_when_flushed = True
+               for request in self.requests:
+                   request.close()
+               self.requests = []
+       else:
+           if len(self.requests) > 1:
+               self._flush_outbufs_below_high_watermark()
+           if self.current_outbuf_count > 0:
+               self.current_outbuf_count = self.adj.outbuf_high_watermark
+           request.close()
+           with self.requests_lock:
+               self.requests.pop(0)
+               if self.connected and self.requests:
+                   self.server.add_task(self)
+               elif self.connected and self.request is not None and self.request.expect_continue and self.request.headers_finished and (not self.sent_continue):
+                   self.send_continue()
+       if self.connected:
+           self.server.pull_trigger()
+       self.last_activity = time.time()
+   parser.py HTTPRequestParser / parse_header / if version == '1.1': expect = headers.get('EXPECT', '').lower()
+   parser.py HTTPRequestParser / parse_header / if version == '1.1': self.expect_continue = expect == '100-continue'
+   SIGNATURE-END
+
    GHOST (never read by a guard): [rid] creation index of the parser object,
    [g_asked] some head parsed into the object set expect_continue, [g_heads]
-   number of header blocks parsed into the object, [bad] ids of the objects whose
-   `completed = True` was overwritten by send_continue (findings F5/F6: the class
-   kf_c19_expect_complete_at_head), [askers] ids that ever asked. *)
+   number of header blocks parsed into the object, [askers] ids that ever asked.
+
+   HISTORY.  Until fix e3537e2 send_continue ended with `self.request.completed =
+   False` (findings F5/F6: a request complete or refused at the end of its header
+   block was answered 100 Continue and never queued); the model had a ghost class
+   for it.  The statement is gone from the code and from the model; the theorems
+   are stated for all requests. *)
 From Coq Require Import List Arith Bool.
 From RecordUpdate Require Import RecordUpdate.
 Import ListNotations.
@@ -197,16 +267,15 @@ Record state := mkState {
   queued : nat;                (* add_task calls not yet taken by a worker *)
   outlog : list tok;           (* appends to the output buffers, in order *)
   next_id : nat;
-  bad : list nat;
   askers : list nat
 }.
 
 #[export] Instance eta_state : Settable _ := settable! mkState
   <request; requests; sent_continue; will_close; close_when_flushed; connected; rlock; io;
-   active; queued; outlog; next_id; bad; askers>.
+   active; queued; outlog; next_id; askers>.
 
 Definition init : state :=
-  mkState None [] false false false true false IOIdle [] 0 [] 0 [] [].
+  mkState None [] false false false true false IOIdle [] 0 [] 0 [].
 
 Inductive choice :=
 | CIOEnter
@@ -232,8 +301,7 @@ Inductive label :=
 | LServe (id : nat)             (* service() picked requests[0] *)
 | LFinal (id : nat)
 | LPop (id : nat)
-| LCloseDecision
-| LReset (id : nat).            (* send_continue overwrote completed = True *)
+| LCloseDecision.
 
 Definition is_nil {A} (l : list A) : bool := match l with [] => true | _ => false end.
 
@@ -283,11 +351,8 @@ Definition io_complete (s : state) (more : bool) : state * list label :=
 Definition do_send (s : state) (by_worker : bool) : state * list label :=
   match request s with
   | Some q =>
-    let s := s <| outlog := outlog s ++ [TInterim (rid q) by_worker] |> <| sent_continue := true |> in
-    let s := s <| request := Some (q <| a_completed := false |>) |> in
-    if a_completed q
-    then (s <| bad := rid q :: bad s |>, [LInterim (rid q) by_worker; LReset (rid q)])
-    else (s, [LInterim (rid q) by_worker])
+    (s <| outlog := outlog s ++ [TInterim (rid q) by_worker] |> <| sent_continue := true |>,
+     [LInterim (rid q) by_worker])
   | None => (s, [])     (* AttributeError on None: unreachable *)
   end.
 
